@@ -171,7 +171,7 @@ def freeze_checks(g, x):
     r = g.r
     g.emit("frz %s" % x)
     for k in r.sample([1, 1, 2, 3, 4, 5, 8, 9, 100, 4096, 8192, 10 ** 6, 10 ** 9], 4):
-        g.emit("frzsmall %s %d%s" % (x, k, " nil" if r.random() < 0.3 else ""))
+        g.emit("frzsmall %s %d%s" % (x, k, r.choice(["", "", " nil", " exact"])))
     g.count("frz:small")
     for off in r.sample([0, 1, 2, 3, 4, 5, 7, 8, 9, 12, 16, 17, 20, 100, 1000, 8191, 8192, 8200, 100000, 10 ** 7], 4):
         g.emit("frzwfail %s %d" % (x, off))
